@@ -4,7 +4,13 @@ branches of StensorComputeIsotropicFunctionDerivative<2,3>::exe are regenerated 
 inputs; Coq re-checks that they equal sum_i f_i n_i resp. the Daleckii-Krein tensor.  Execution (tie + failing-input
 search): the public entry points (with the eigen solvers) are run on a structured generator; values are compared with
 matrix power series computed in Python, derivatives with central finite differences of the real function and, for
-x^3, with the exact derivative of s^3."""
+x^3, with the exact derivative of s^3.  The static overloads computeIsotropicFunctionDerivative(f, df, vp, m, eps) are also
+called DIRECTLY with every tie pattern of the eigenvalues at every position ((a,a,b), (a,b,a), (b,a,a), (a,a,a), exact and
+within eps) and random orthogonal m, against the exact derivative of s^3 / finite differences of the power series.
+Theorems added in round 2: the four 3D branches with (nearly) coinciding eigenvalues (each traced leaf = Daleckii-Krein
+tensor of the merged eigen-data; exact ties = the Daleckii-Krein tensor with the limit f'), and "the Daleckii-Krein tensor
+IS the derivative" for polynomials of degree <= 3 of plane tensors (component-wise is_derive of the matrix polynomial),
+also composed with the regenerated 2D code."""
 import os, sys, math
 from concurrent.futures import ThreadPoolExecutor
 sys.path.insert(0, os.path.dirname(os.path.abspath(__file__)))
@@ -50,6 +56,54 @@ def cube_derivative(s, n):
     return [[cols[j][i] for j in range(k)] for i in range(k)]
 
 
+def fd_derivative(s, n, fn, h=1e-5):
+    """central finite differences of the power series (independent of any eigen decomposition), row major k*k"""
+    k = 4 if n == 2 else 6
+    cols = []
+    for j in range(k):
+        sp, sm = list(s), list(s)
+        sp[j] += h
+        sm[j] -= h
+        fp = gen.to_mandel(series(gen.from_mandel(sp), fn), n)
+        fm = gen.to_mandel(series(gen.from_mandel(sm), fn), n)
+        cols.append([(a - b) / (2 * h) for a, b in zip(fp, fm)])
+    return [cols[j][i] for i in range(k) for j in range(k)]
+
+
+def static_cases(rng, nrep):
+    """eigen-data handed directly to the static overloads: every tie pattern at every position, exact and within eps,
+    random orthogonal eigenvector matrices (rotations and reflections)"""
+    out = []
+    eps = 1e-6
+    for rep in range(nrep):
+        for pat in ("aab", "aba", "baa", "aaa", "abc"):
+            for kind in ("exact", "near"):
+                if pat == "abc" and kind == "near":
+                    continue
+                for n in (3, 2):
+                    if n == 2 and pat in ("aba", "baa"):
+                        continue    # in 2D only the in-plane pair (positions 0,1) is ever tested by the code
+                    a = rng.uniform(0.3, 1.5) * rng.choice([-1, 1])
+                    b = a + rng.uniform(0.4, 1.2) * rng.choice([-1, 1])
+                    cval = b + rng.uniform(0.4, 1.2) * (1 if b > a else -1)
+                    vals = {"a": a, "b": b, "c": cval}
+                    vp = [vals[ch] for ch in pat]
+                    if kind == "near":      # the tied values differ by less than eps
+                        seen = 0
+                        for i, ch in enumerate(pat):
+                            if ch == "a":
+                                vp[i] = a + seen * rng.uniform(0.05, 0.3) * eps
+                                seen += 1
+                    q = gen.rot_from_quat(rng) if n == 3 else gen.rot_z(rng.uniform(-math.pi, math.pi))
+                    if rng.random() < 0.3:
+                        col = rng.randrange(2 if n == 2 else 3)
+                        q = [[-x if j == col else x for j, x in enumerate(r)] for r in q]
+                    if rng.random() < 0.15:
+                        q = [[1.0 if i == j else 0.0 for j in range(3)] for i in range(3)]
+                    out.append({"id": "st%d_%s_%s_%d" % (n, pat, kind, rep), "N": n, "pattern": pat, "kind": kind, "vp": vp, "m": q, "eps": eps})
+    return out
+
+
 def main(c):
     with ThreadPoolExecutor(max_workers=2) as ex:
         f1 = ex.submit(c.cxx, "trace", ["trace.cxx"], SUPPORT, ["-DNDEBUG"])
@@ -74,7 +128,8 @@ def main(c):
     c.trusted("engine S tracer (cxx/sym/sym.hxx) and g++ template instantiation with Sym",
               "restriction of the traced domain of the 3D distinct branch by pre-decided comparisons in props/C05/trace.cxx (leaves outside are None)",
               "Python evaluation of the predicate (power series of exp/sin, exact derivative of s^3) in binary64",
-              "assumed mathematics, not proved here: the Daleckii-Krein tensor is the Frechet derivative of the isotropic function")
+              "assumed mathematics, proved here only for polynomials of degree <= 3 of plane (2D) tensors: the Daleckii-Krein tensor is the Frechet derivative of the isotropic function",
+              "the symmetric pre-decision |a-b| < eps <-> |b-a| < eps in props/C05/trace.cxx (paths where they differ are None leaves; impossible over the reals)")
 
     # ---- real code
     cases = []
@@ -85,20 +140,42 @@ def main(c):
         sc = (c.rng.uniform(0.3, 3.0) / nrm) if nrm > 0 else 1.0
         cases.append((cs[0], cs[1], cs[2], [x * sc for x in cs[3]]))
     inp = "\n".join("%s %d %s" % (cs[0], cs[2], " ".join(float.hex(x) for x in cs[3])) for cs in cases) + "\n"
-    files = [gen_v, "C05Spec.v", "C05Statements.v", "C05Proofs.v", "Properties_C05.v"]
+    statics = static_cases(c.rng, c.pick(3, 40))
+    for st in statics:
+        inp += "STATIC %d %s %s %s %s\n" % (st["N"], st["id"], " ".join(float.hex(x) for x in st["vp"]),
+                                           " ".join(float.hex(x) for r in st["m"] for x in r), float.hex(st["eps"]))
+    base = [gen_v, "C05Spec.v", "C05Statements.v", "C05Proofs.v", "Properties_C05.v"]
+    chains = [["C05ProofsTies.v", "Properties_C05_ties.v"], ["C05StatementsPoly.v", "C05ProofsPoly.v", "Properties_C05_poly.v"]]
+    nobl = {"Properties_C05.v": 5, "Properties_C05_ties.v": 8, "Properties_C05_poly.v": 5}
     if not c.quick():
-        files += ["C05Proofs3D.v", "Properties_C05_3D.v"]
+        chains.append(["C05Proofs3D.v", "Properties_C05_3D.v"])
+        nobl["Properties_C05_3D.v"] = 1
     else:
         c.notes.append("quick tier: theorem C05_derivative_3D_distinct (5 min of field identities) is only re-checked in the thorough tier; "
-                       "the 3D derivative branches are tied by tree-vs-double agreement and by finite differences here")
-    with ThreadPoolExecutor(max_workers=2) as ex:
+                       "the 3D distinct branch is tied by tree-vs-double agreement and by finite differences here")
+    with ThreadPoolExecutor(max_workers=4) as ex:
         frun = ex.submit(c.run, [driver], 1200, inp)
-        res = c.coq(files, timeout=1500)
+        results = [c.coq(base, timeout=1500)]
+        if results[0].ok:   # the independent chains of proofs over the same base, in parallel (at most 3 coqc + the driver)
+            results += [f.result() for f in [ex.submit(c.coq, ch, 1500) for ch in chains]]
         rc, out, err = frun.result()
+
+    class Res:
+        pass
+    res = Res()
+    res.ok = all(r.ok for r in results)
+    res.files = [f for r in results for f in r.files]
+    res.failed = [f for r in results for f in r.failed]
+    res.theorems = [t for r in results for t in r.theorems]
+    # the chains ran concurrently: set the counters from the results themselves
+    c.coverage["obligations"] = len(res.theorems)
+    c.coverage["discharged"] = sum(len(r.discharged) for r in results)
+    c.coverage["checker_cmd"] = "coqc -Q coq/lib VLib -R <scratch> C05 <files: %s> (Coq 8.16.1, full .vo compilation)" % " ".join(f[0] for f in res.files)
     if rc != 0:
         c.report("run", "driver failed (rc=%d): %s" % (rc, err[-500:]), {"stderr": err[-3000:]}, False)
         return
     byid = {cs[0]: cs for cs in cases}
+    stat = {st["id"]: st for st in statics}
     fd = {}
     worst = {}
     found = []
@@ -160,6 +237,35 @@ def main(c):
                 fail("entry-points", solver, cs, fn, "computeIsotropicFunction / ...Derivative / ...AndDerivative disagree by %.3g" % dmax, {})
             if nres % 997 == 1:
                 c.sample({"solver": solver, "N": n, "class": cs[1], "function": fn, "tensor": cs[3], "value_err": ev, "derivative_err_vs_fd": ed})
+        elif t[0] == "T":
+            st = stat[t[1]]
+            n, fn = int(t[2]), t[3]
+            k = 4 if n == 2 else 6
+            dd = [float.fromhex(x) for x in t[4:4 + k * k]]
+            dmax = float.fromhex(t[5 + k * k])
+            key = "static:%d:%s:%s:%s" % (n, st["pattern"], st["kind"], fn)
+            c.count(1, (t[1], fn), st["pattern"] != "abc")
+            a = gen.sym_from(st["vp"], st["m"])
+            sm = gen.to_mandel(a, n)
+            ref = [x for r in cube_derivative(sm, n) for x in r] if fn == "cube" else fd_derivative(sm, n, fn)
+            scd = max(1.0, max(abs(x) for x in ref))
+            e = max(abs(x - y) for x, y in zip(dd, ref)) / scd if all(math.isfinite(x) for x in dd) else float("inf")
+            ws = worst.setdefault(("static", n, st["pattern"] + ":" + st["kind"]), [0.0, 0.0])
+            ws[1] = max(ws[1], e)
+            rep = {"N": n, "function": fn, "tie_pattern": st["pattern"], "kind": st["kind"], "vp": st["vp"], "m_row_major": [x for r in st["m"] for x in r],
+                   "eps": st["eps"], "tensor_mandel": sm, "observed_row_major": dd, "expected_row_major": ref}
+            if e > 2e-5:
+                found.append(key)
+                i = max(range(k * k), key=lambda q: abs(dd[q] - ref[q]))
+                c.report(key, "stensor<%d,double>::computeIsotropicFunctionDerivative(f, df, vp, m, eps) called directly with eigenvalues vp=%s (tie pattern %s, %s), "
+                         "eps=%g, f=%s and an orthogonal m: the result differs from the %s of s = m diag(vp) m^T (relative %.3g; entry (%d,%d): %.9g, expected %.9g)"
+                         % (n, st["vp"], st["pattern"], st["kind"], st["eps"], fn,
+                            "exact derivative of s^3" if fn == "cube" else "central finite differences of the power series", e, i // k, i % k, dd[i], ref[i]), rep, True)
+            if dmax > 1e-12 * scd:
+                found.append(key + ":overloads")
+                c.report(key + ":overloads", "the overloads of computeIsotropicFunctionDerivative taking functions and taking values disagree by %.3g on vp=%s" % (dmax, st["vp"]), rep, True)
+            if nres % 97 == 1 and fn == "exp":
+                c.sample({"static_overload": True, "N": n, "tie_pattern": st["pattern"], "kind": st["kind"], "vp": st["vp"], "function": fn, "derivative_err": e})
         elif t[0] == "P":
             cid, n = t[1], int(t[2])
             cs = byid[cid]
@@ -179,17 +285,21 @@ def main(c):
                 fail("positive_part/negative_part/absolute_value", "TFEL", cs, "parts",
                      "pos+neg-s: %.3g, pos-neg-abs: %.3g, abs^2-s^2: %.3g (relative, tolerance %.1g)" % (e1, e2, e3, tol), {"pos": p, "neg": ng, "abs": ab})
     c.coverage["rule"] = ("seeded structured generator (props/C05/gen.py: diagonal, repeated, nearly repeated 1e-1..1e-15, nearly diagonal, random rotations; norm in [0.3,3]); "
-                          "N=2,3; f in {exp, x^3, sin}; solvers TFEL, FSESJACOBI, GTE; eps = 1e-9 max(|s|,1)")
+                          "N=2,3; f in {exp, x^3, sin}; solvers TFEL, FSESJACOBI, GTE; eps = 1e-9 max(|s|,1); "
+                          "static overloads called directly: %d eigen-data sets (tie patterns aab, aba, baa, aaa exact and within eps = 1e-6, abc; N=3 and N=2; random rotations, reflections, identity)" % len(statics))
     c.coverage["worst_observed_value_err_deriv_err"] = {"%s:%d:%s" % k: [float("%.3g" % x) for x in v] for k, v in sorted(worst.items())}
-    c.notes.append("NOT proved: that the Daleckii-Krein tensor is the Frechet derivative (assumed mathematics); the 3D branches with two or three equal eigenvalues "
-                   "(traced and tied by agreement/finite differences only); composition with the eigen solvers (C03); rounding")
+    c.notes.append("NOT proved: that the Daleckii-Krein tensor is the Frechet derivative beyond polynomials of degree <= 3 in 2D (assumed mathematics elsewhere); "
+                   "how far the merged-data tensor of the eps branches is from the true derivative when the close eigenvalues are not equal (O(gap), only measured: see "
+                   "worst_observed static:*:near); composition with the eigen solvers (C03); rounding")
     if not res.ok:
-        if not res.theorems:
-            c.coverage["obligations"] += 5 if c.quick() else 6   # Properties files were not reached
+        reached = {f[0] for f in res.files}
+        c.coverage["obligations"] += sum(v for k, v in nobl.items() if k not in reached)   # Properties files that were not reached
         if found:
             c.notes.append("proof obligations %s no longer check; concrete failing inputs reported: %s" % ([f[2] for f in res.failed], sorted(set(found))[:6]))
         else:
-            c.coq_failures(res, None)
+            for r in results:
+                if not r.ok:
+                    c.coq_failures(r, None)
 
 
 guarded_main("C05", main)
